@@ -28,7 +28,9 @@ inductive Loop where
   | paused     -- in the inner (paused) select
   | pubStart   -- `default:` chosen, about to RLock subMux and send the PublishRequest
   | inflight   -- PublishRequest sent, waiting for the response / timeout
-  | wantLock   -- good response received, about to `subMux.Lock()` to handle it
+  | wantLock   -- good response without data (keep-alive, unknown subscription): about to `subMux.Lock()`
+  | wantLockD  -- good response with a data notification: about to `subMux.Lock()` to handle it
+  | notifying  -- lock released; `notifySubscription` hands the data to the application (`s.Notifs <- data`)
   | selfPause  -- publish() failed: about to send on pausech (blocks while it is full)
   deriving DecidableEq, Repr
 
@@ -36,8 +38,13 @@ inductive Loop where
     sections are atomic steps that need the lock to be free) -/
 inductive Mux where
   | free
-  | forgetSending   -- forgetSubscription_NeedsSubMuxLock is about to send on pausech
+  | forgetSending   -- forgetSubscription_NeedsSubMuxLock is about to send on pausech (context never ends)
+  | forgetSendingD  -- the same, called with a context that has a deadline
   deriving DecidableEq, Repr
+
+def Mux.n : Mux → Nat
+  | .free => 0
+  | _ => 1
 
 structure St where
   pause : Nat      -- len(pausech)
@@ -48,6 +55,7 @@ structure St where
   subLock : Nat    -- Subscribe calls before `c.subMux.Lock()`
   fgStart : Nat    -- ForgetSubscription calls (registered id) before `c.subMux.Lock()`
   fgStale : Nat    -- ForgetSubscription calls for an id that is not registered (repeated Cancel)
+  fgStaleD : Nat   -- … called with a context that has a deadline
   monPause : Nat   -- reconnect rounds of Client.monitor before pauseSubscriptions
   monResume : Nat  -- … after the actions, before the `activeSubs > 0` switch
   nsubs : Nat      -- len(c.subs)
@@ -55,21 +63,23 @@ structure St where
 
 inductive Label where
   | selTakeResume | selTakePause | selDefault
-  | pubStart | respOk | respIgnored | respErr | handle | selfPause
+  | pubStart | respOk | respData | respIgnored | respErr | handle | handleD | appTake | selfPause
   | pausedTakeResume | pausedTakePause
   | subSendResume | subRegister
-  | fgLock | fgStaleLock | fgSendPause
+  | fgLock | fgStaleLock | fgSendPause | fgStaleDLock | fgSendPauseD | fgGiveUp
   | monSendPause | monSendResume | monSkipResume
   deriving DecidableEq, Repr
 
 def Label.all : List Label :=
-  [.selTakeResume, .selTakePause, .selDefault, .pubStart, .respOk, .respIgnored, .respErr, .handle,
-   .selfPause, .pausedTakeResume, .pausedTakePause, .subSendResume, .subRegister, .fgLock,
-   .fgStaleLock, .fgSendPause, .monSendPause, .monSendResume, .monSkipResume]
+  [.selTakeResume, .selTakePause, .selDefault, .pubStart, .respOk, .respData, .respIgnored, .respErr, .handle,
+   .handleD, .appTake, .selfPause, .pausedTakeResume, .pausedTakePause, .subSendResume, .subRegister, .fgLock,
+   .fgStaleLock, .fgSendPause, .fgStaleDLock, .fgSendPauseD, .fgGiveUp, .monSendPause, .monSendResume,
+   .monSkipResume]
 
-/-- environment steps: the server (or the timeout) ends an outstanding publish -/
+/-- environment steps: the server (or the timeout) ends an outstanding publish, the
+    application takes a notification, a context deadline passes -/
 def Label.isEnv : Label → Bool
-  | .respOk | .respIgnored | .respErr => true
+  | .respOk | .respData | .respIgnored | .respErr | .appTake | .fgGiveUp => true
   | _ => false
 
 def step (s : St) : Label → Option St
@@ -82,7 +92,11 @@ def step (s : St) : Label → Option St
   | .respOk => if s.loop = .inflight then some { s with loop := .wantLock } else none
   | .respIgnored => if s.loop = .inflight then some { s with loop := .sel } else none
   | .respErr => if s.loop = .inflight then some { s with loop := .selfPause } else none
+  | .respData => if s.loop = .inflight then some { s with loop := .wantLockD } else none
   | .handle => if s.loop = .wantLock ∧ s.mux = .free then some { s with loop := .sel } else none
+  -- Lock; handleAcks; handleNotification; Unlock — and only then notifySubscription
+  | .handleD => if s.loop = .wantLockD ∧ s.mux = .free then some { s with loop := .notifying } else none
+  | .appTake => if s.loop = .notifying then some { s with loop := .sel } else none
   | .selfPause => if s.loop = .selfPause ∧ s.pause < pauseCap then some { s with pause := s.pause + 1, loop := .sel } else none
   -- inner select
   | .pausedTakeResume => if s.loop = .paused ∧ 0 < s.resume then some { s with resume := s.resume - 1, loop := .sel } else none
@@ -102,6 +116,14 @@ def step (s : St) : Label → Option St
        else some { s with fgStale := s.fgStale - 1 }) else none
   | .fgSendPause => if s.mux = .forgetSending ∧ s.pause < pauseCap then
       some { s with pause := s.pause + 1, mux := .free } else none
+  -- the same call with a context that has a deadline: `pauseSubscriptions` selects on
+  -- ctx.Done() as well, so it gives up (and the lock is released) when the deadline passes
+  | .fgStaleDLock => if 0 < s.fgStaleD ∧ s.mux = .free then
+      (if s.nsubs = 0 then some { s with fgStaleD := s.fgStaleD - 1, mux := .forgetSendingD }
+       else some { s with fgStaleD := s.fgStaleD - 1 }) else none
+  | .fgSendPauseD => if s.mux = .forgetSendingD ∧ s.pause < pauseCap then
+      some { s with pause := s.pause + 1, mux := .free } else none
+  | .fgGiveUp => if s.mux = .forgetSendingD then some { s with mux := .free } else none
   -- Client.monitor
   | .monSendPause => if 0 < s.monPause ∧ s.pause < pauseCap then
       some { s with pause := s.pause + 1, monPause := s.monPause - 1, monResume := s.monResume + 1 } else none
@@ -121,7 +143,7 @@ def canStep (s : St) : Bool := Label.all.any fun l => (step s l).isSome
 /-- every API call has returned, the reconnect code is done, and the loop waits in
     its paused select with nothing to read -/
 def atRest (s : St) : Bool :=
-  s.subSend = 0 ∧ s.subLock = 0 ∧ s.fgStart = 0 ∧ s.fgStale = 0 ∧ s.mux = .free ∧ s.monPause = 0 ∧ s.monResume = 0 ∧
+  s.subSend = 0 ∧ s.subLock = 0 ∧ s.fgStart = 0 ∧ s.fgStale = 0 ∧ s.fgStaleD = 0 ∧ s.mux = .free ∧ s.monPause = 0 ∧ s.monResume = 0 ∧
   s.loop = .paused ∧ s.pause = 0 ∧ s.resume = 0
 
 /-- everything is quiet and the loop is paused although subscriptions are registered:
@@ -130,9 +152,9 @@ def stalled (s : St) : Bool := atRest s && decide (0 < s.nsubs)
 
 /-- a fresh client (`NewClient` queues `newClientPauses` tokens) whose publish loop has
     just been started by `Connect`, with the given API calls about to happen -/
-def init (subscribes forgets stale reconnects nsubs : Nat) : St :=
+def init (subscribes forgets stale staleD reconnects nsubs : Nat) : St :=
   { pause := Gen.Subs.newClientPauses, resume := 0, mux := .free, loop := .sel,
-    subSend := subscribes, subLock := 0, fgStart := forgets, fgStale := stale, monPause := reconnects, monResume := 0,
+    subSend := subscribes, subLock := 0, fgStart := forgets, fgStale := stale, fgStaleD := staleD, monPause := reconnects, monResume := 0,
     nsubs := nsubs }
 
 inductive Reachable (s₀ : St) : St → Prop where
@@ -147,10 +169,10 @@ inductive ReachableNoErr (s₀ : St) : St → Prop where
 /-- the loop has consumed the initial pause token and waits; `n` Subscribe calls follow -/
 def started (n : Nat) : St :=
   { pause := 0, resume := 0, mux := .free, loop := .paused, subSend := n, subLock := 0, fgStart := 0,
-    fgStale := 0, monPause := 0, monResume := 0, nsubs := 0 }
+    fgStale := 0, fgStaleD := 0, monPause := 0, monResume := 0, nsubs := 0 }
 
 /-- threads that may still send a pause signal (the loop itself not counted) -/
-def pausers (s : St) : Nat := s.fgStart + s.fgStale + (if s.mux = .forgetSending then 1 else 0) + s.monPause
+def pausers (s : St) : Nat := s.fgStart + s.fgStale + s.fgStaleD + s.mux.n + s.monPause
 
 /-! #### quiescence closure (used by the driver for the correspondence runs) -/
 
